@@ -363,6 +363,15 @@ func init() {
 				s.assume(T{ax2, SBool})
 				st.Heap[names[i]] = s.define("H", Store(h, org.val.L[0], na))
 			}
+			{
+				// the two index maps are inverse to each other (a permutation is a bijection of the index range)
+				s.nfresh++
+				j := fmt.Sprintf("j!%d", s.nfresh)
+				ax3 := fmt.Sprintf("(forall ((%s Int)) (! (=> (and (<= 0 %s) (< %s %s)) (= (%s (%s %s)) %s)) :pattern ((%s %s))))", j, j, j, ln.S, qf, pf, j, j, pf, j)
+				ax4 := fmt.Sprintf("(forall ((%s Int)) (! (=> (and (<= 0 %s) (< %s %s)) (= (%s (%s %s)) %s)) :pattern ((%s %s))))", j, j, j, ln.S, pf, qf, j, j, qf, j)
+				s.assume(T{ax3, SBool})
+				s.assume(T{ax4, SBool})
+			}
 			s.note("sort in %s: modelled as an arbitrary permutation of the slice (the resulting order is not modelled)", fr.fn.String())
 			return Val{}
 		}
